@@ -162,7 +162,11 @@ def run():
             bounds += [('methods', 1023), ('methods', 1024), ('methods', 1025), ('properties', 1023), ('properties', 1024),
                        ('values', 65535), ('fields', 1000), ('methods', 5000)]
         for what, n in bounds:
-            docs.append(('bound-%s-%d' % (what, n), TC.boundary_doc(n, what), dict(family='bound', cases=1, types=False, what=what, n=n)))
+            # the boundary documents are about counts and index fields: judge the containers, the members that carry an index
+            # (properties, vfuncs, accessor methods are covered through them) and, for the long signature, its arguments
+            kinds = ['object', 'enum', 'property', 'vfunc'] + (['sig', 'arg', 'function'] if what in ('args', 'properties') else [])
+            docs.append(('bound-%s-%d' % (what, n), TC.boundary_doc(n, what),
+                         dict(family='bound', cases=1, types=False, what=what, n=n, focus=dict(kinds=kinds))))
         only = set(filter(None, os.environ.get('C06_ONLY', '').split(',')))
         if only:            # development aid (mutation exercise): only these families; the evidence then says exhaustive=false
             docs = [d for d in docs if d[2].get('family') in only]
@@ -195,6 +199,8 @@ def run():
         o = byid[oid]
         docid, path, _ = oid.split('|')
         sig = sig_of(oid, clause, kind, R.roles.get(oid, ''))
+        if kind == 'constant' and o['found']:
+            sig['type'] = o['g']['type'][0]['rname']
         if R.meta.get(docid, {}).get('family') == 'bound':        # 10-bit index fields / 16-bit counts: say which boundary
             sig['bound'] = '%s-%s' % (R.meta[docid].get('what'), R.meta[docid].get('n'))
         doc = R.docs.get(docid)
@@ -202,6 +208,8 @@ def run():
         text = '%s [%s]: %s %s of %s\n  GIR element: %s\n  typelib says: %s' % (clause, R.roles.get(oid, ''), kind, path, docid, json.dumps(o['g'], sort_keys=True)[:600],
                                                                          json.dumps(o['b'], sort_keys=True)[:600])
         ck.violation(sig, text, dict(docid=docid, doc=small or doc, meta=dict(types=True), path=path, clause=clause))
+    # every distinct failing input class (common.finish prints and stores the first 25 only)
+    ck.cov['violation_classes'] = sorted({json.dumps(s, sort_keys=True) for s, _, _ in ck.violations})
     ck.cov['drift'] = drift
     for c, n in drift.items():
         ck.notes.append('%s on %d documents (directory order differs from document order; not part of the statement)' % (c, n))
